@@ -12,8 +12,8 @@ from common import run_worker, lean_driver
 
 LEVEL = 'proof'
 
-TOPS = ['a', 'b', 'pkg', 'pkgx', 'pk', 'pkg_']
-SUBS = ['a', 'c', 'sub', 'subx', 'deep', 'm', 'lazy__init__', 'x__main__']      # the last two: look-alikes of the package / main markers
+TOPS = ['a', 'b', 'pkg', 'pkgx', 'pk', 'pkg_', '\u00e9t\u00e9', '_p']                 # a valid identifier need not start with an ASCII letter
+SUBS = ['a', 'c', 'sub', 'subx', 'deep', 'm', 'lazy__init__', 'x__main__', '\u00e7a', 'caf\u00e9', '\u03bb1']      # the last two: look-alikes of the package / main markers
 
 
 def rand_dir(rng, depth, pkg_chance):
@@ -230,7 +230,7 @@ def run(ctx):
             nontrivial.add(json.dumps(c['roots'], sort_keys=True))
     ctx.coverage.update({
         'evaluations': stats['queries'] + stats['walks'], 'distinct_nontrivial': len(nontrivial),
-        'rule': '1-3 search roots of generated trees (depth <= 4; look-alike names pkg/pkgx/pk/pkg_; same stem as file and directory; directories without __init__.py; '
+        'rule': '1-3 search roots of generated trees (depth <= 4; look-alike names pkg/pkgx/pk/pkg_; non-ASCII identifiers; same stem as file and directory; directories without __init__.py; '
                 '__main__.py; non-module files; occasionally a root that is itself a package); every dotted name occurring in the trees + missing ones; every directory '
                 'walked as a package; non-trivial = more than one search root',
         'traces_validated_against_impl': stats['queries'] * 2 + stats['walks'] - kdiff, 'correspondence_disagreements': kdiff, 'statistics': stats})
